@@ -20,6 +20,8 @@ From Coq Require Import NArith ZArith List Lia Bool.
 From Mtbl Require Import gen.Consts model.Bytes model.Codec model.Crc model.Writer spec.Leb128 spec.Parse
   model.Reader model.Verify model.Order model.Block proofs.BytesLemmas proofs.CodecProofs proofs.WriterProofs proofs.MetaProofs proofs.BlockProofs proofs.ReaderProofs
   proofs.BlockRT proofs.VerifyProofs proofs.TableRT proofs.VerifyFile proofs.VerifyIter proofs.VerifyDamaged proofs.VerifyShape proofs.CrcDetect proofs.CrcBurst.
+(* source ties: the statements of the C functions the model follows (gen/Ties.v is regenerated from /repo on every run) *)
+From Mtbl Require props.Ties_C12.
 Local Open Scope N_scope.
 
 (* T12b (reader): whatever operation makes a verify_checksums reader load the block at
